@@ -578,7 +578,12 @@ def run_e2e(ctx, g, rng):
         err = rng.uniform(0.2, 1.5, k)
         rv = 20 * np.sin(t / 7.3) + zero[s] + rng.normal(0, 1, k) * err
         srcs.append(dict(t=t, rv=rv, err=err))
-    ds = [RVData(sv["t"], sv["rv"] * u.km / u.s, sv["err"] * u.km / u.s) for sv in srcs]
+    # a source may quote its uncertainties in another (equivalent) unit than its velocities
+    err_in_ms = [bool(rng.random() < 0.3) for _ in srcs]
+    if any(err_in_ms):
+        ctx.count("e2e:rv_err in another unit than rv")
+    ds = [RVData(sv["t"], sv["rv"] * u.km / u.s, ((sv["err"] * u.km / u.s).to(u.m / u.s) if ms else sv["err"] * u.km / u.s))
+          for sv, ms in zip(srcs, err_in_ms)]
     data = ds if form == "list" else {k: d for k, d in zip(keys, ds)}
     inp = dict(form=form, keys=keys, layout=layout, poly_trend=p, n_offsets=q,
                sources=[dict(t=list(sv["t"]), rv=list(sv["rv"]), err=list(sv["err"]), unit="km/s") for sv in srcs])
@@ -716,4 +721,5 @@ def post(ctx):
     ctx.require("single-source cases", c["single:default"] + c["single:explicit"] + c["single:disabled"], 20)
     ctx.require("refused inputs", sum(v for k, v in c.items() if k.startswith("refuse:")), 10)
     ctx.require("end-to-end likelihood cases sensitive to the labelling", c["e2e:sensitive"], 100 * q)
+    ctx.require("end-to-end cases with a source whose rv_err unit differs from its rv unit", c["e2e:rv_err in another unit than rv"], 20 * q)
     ctx.require("end-to-end cases through a real multi-process pool", c["e2e:multi-process"], 10 * q)
